@@ -28,7 +28,7 @@ pub fn dump_aut(a: &Automaton) -> String {
         ));
     }
     format!(
-        "n={} f={} i={} ; {}",
+        "n={} f={} i={} | {}",
         a.num_states(),
         a.num_final_states(),
         a.initial_state().id(),
